@@ -1290,6 +1290,19 @@ def _two(name):
     return mon
 
 
+def mon_c01_api_two(spec, run):
+    """typed writes of the first YncaApi object while another one is alive: judged on the first object's own wire"""
+    bad = []
+    gone = next((e for e in run.trace if e["k"] == "accessor_gone"), None)
+    if gone is not None:
+        bad.append(("not-submittable", f"the accessor {gone['accessor']} of the first YncaApi object is None although its initialize() returned with it set and its close() "
+                                       f"has not been called (another YncaApi object was initialised meanwhile): the write cannot even be submitted"))
+    return bad + MONITORS["C01"](spec, _SubRun(run, first_connection_only(run.trace)))
+
+
+MONITORS["C01api2"] = mon_c01_api_two
+
+
 for _n in ("C01", "C08", "C12", "C15", "C20"):
     MONITORS[_n + "two"] = _two(_n)
 
